@@ -37,8 +37,9 @@ class SingleValueRawTokenModel(base.RawTokenModel, RWValue[_V]):
 
     @raw_text.setter
     def raw_text(self, raw_text: str) -> None:
+        value = self._parse_value(raw_text)
         self._update_raw_text(raw_text)
-        self._value = self._parse_value(raw_text)
+        self._value = value
 
     @property
     def value(self) -> _V:
